@@ -185,11 +185,11 @@ func c08R2(c *Ctx, rule string) {
 		c.Check(ok, rule, construct, c.at(update), "the insert dominates decryptClientInfo, which runs only on 'not seen before'", why)
 		errIdx := f.Signature.Results().Len() - 1
 		okErr, found := true, false
-		for _, r := range returnsOf(f) {
-			for _, at := range AtomsAt(r) {
+		for _, rp := range retPointsOfFunc(f) {
+			for _, at := range rp.Atoms {
 				if seen, isV := verdict(at); isV && seen {
 					found = true
-					if errIsNilAt(resultValue(r, errIdx), r) != "nonnil" {
+					if errIsNilAt(rp.Vals[errIdx], rp.At) != "nonnil" {
 						okErr = false
 					}
 				}
@@ -233,11 +233,11 @@ func c08R2(c *Ctx, rule string) {
 		errIdx := f.Signature.Results().Len() - 1
 		okErr := true
 		found := false
-		for _, r := range returnsOf(f) {
-			for _, at := range AtomsAt(r) {
+		for _, rp := range retPointsOfFunc(f) {
+			for _, at := range rp.Atoms {
 				if at.Kind == "call" && at.Call == regCall && at.Pol {
 					found = true
-					if errIsNilAt(resultValue(r, errIdx), r) != "nonnil" {
+					if errIsNilAt(rp.Vals[errIdx], rp.At) != "nonnil" {
 						okErr = false
 					}
 				}
